@@ -28,6 +28,15 @@ var Root = func() string {
 	return "/verif"
 }()
 
+// OutRoot is where evidence and replay files are written (differs from Root only in mutation
+// self-test runs, so that a mutant never overwrites the evidence of the real tree).
+var OutRoot = func() string {
+	if r := os.Getenv("VERIF_OUT"); r != "" {
+		return r
+	}
+	return Root
+}()
+
 // Finding is one violation (deduplicated by signature).
 type Finding struct {
 	Sig      string          `json:"signature"`
@@ -480,7 +489,7 @@ func report(spec *Spec, tier string, total *Part, wall time.Duration) int {
 	exit := 0
 	var knownSeen []string
 	nviol := 0
-	_ = os.MkdirAll(filepath.Join(Root, "replays"), 0o755)
+	_ = os.MkdirAll(filepath.Join(OutRoot, "replays"), 0o755)
 	for _, f := range total.Findings {
 		isKnown := false
 		for _, kf := range known {
@@ -494,7 +503,7 @@ func report(spec *Spec, tier string, total *Part, wall time.Duration) int {
 			continue
 		}
 		nviol++
-		path := filepath.Join(Root, "replays", spec.Property+"-"+slug(f.Sig)+".json")
+		path := filepath.Join(OutRoot, "replays", spec.Property+"-"+slug(f.Sig)+".json")
 		b, _ := json.MarshalIndent(map[string]interface{}{"property": spec.Property, "finding": f}, "", " ")
 		_ = os.WriteFile(path, b, 0o644)
 		fmt.Printf("VIOLATION property=%s replay=%s\n", spec.Property, path)
@@ -542,9 +551,9 @@ func report(spec *Spec, tier string, total *Part, wall time.Duration) int {
 		"wall_s":      wall.Seconds(),
 		"violations":  nviol,
 	}
-	_ = os.MkdirAll(filepath.Join(Root, "evidence"), 0o755)
+	_ = os.MkdirAll(filepath.Join(OutRoot, "evidence"), 0o755)
 	b, _ := json.MarshalIndent(ev, "", " ")
-	if err := os.WriteFile(filepath.Join(Root, "evidence", spec.Property+".json"), b, 0o644); err != nil {
+	if err := os.WriteFile(filepath.Join(OutRoot, "evidence", spec.Property+".json"), b, 0o644); err != nil {
 		fmt.Fprintln(os.Stderr, err)
 		return 2
 	}
